@@ -20,8 +20,9 @@ RULES = {
     'R6': 'encoder and decoder agree on where the arguments start: the decoder looks behind the stored format\'s terminator, so wherever the encoder shortens the stored format (stores a NUL into it) it moves its argument cursor back on the same path',
     'R7': 'the decoder hands snprintf only directives printf accepts: the value of a \'*\' argument is pasted into the rebuilt directive only where it is non-negative or does not follow the precision dot (a negative precision means "none given")',
     'R8': 'the buffer the decoder rebuilds a directive in holds the longest directive without repeated flags: % + every flag character of its switch once + two \'*\' values of 11 characters + the dot + a two-letter length modifier + the conversion + NUL',
+    'R9': 'the encoder reads a string argument that has a precision the way printf does: wherever the precision flag of the directive is set (also through \'*\') the argument is not handed to anything that measures it without bound (strlen, the strl* wrappers, strcpy)',
 }
-FLOORS = {'R1': 12, 'R2': 20, 'R3': 20, 'R4': 2, 'R5': 12, 'R6': 1, 'R7': 1, 'R8': 1}
+FLOORS = {'R1': 12, 'R2': 20, 'R3': 20, 'R4': 2, 'R5': 12, 'R6': 1, 'R7': 1, 'R8': 1, 'R9': 2}
 
 
 def strl_summary(an, ev, st):
@@ -106,6 +107,19 @@ class EncAnalysis(Analysis):
             if r.get('k') == 'bin' and r['op'] == '+' and cval(unwrap(r['r'])) is not None and callee_of(unwrap(r['l'])) in ('my_strlcpy', 'my_strlcat'):
                 plus1 = cval(unwrap(r['r']))
                 r = unwrap(r['l'])
+            if callee_of(r) == 'strnlen' and len(r['args']) == 2 and (ev.kind == 'DECL' or (unwrap(ev.lhs).get('k') == 'var' and ev.d['op'] == '=')):
+                # 0 <= strnlen(s, m) <= m ; m = min(a, b) bounds it by both
+                name = ev.d['var'] if ev.kind == 'DECL' else unwrap(ev.lhs)['n']
+                self.check_nowrap(ev, r['args'][1], st, 'initialiser of %s' % name)
+                mm = self.minmax(r['args'][1])
+                sides = [r['args'][1]] if not mm else ([mm[1], mm[2]] if mm[0] == 'min' else [])
+                bounds = [self.lin(sd, st) for sd in sides]
+                st.forget(name)
+                st.add_le(0, Lin.term(name))
+                for b in bounds:
+                    if b is not None and name not in b.t:
+                        st.add_le(Lin.term(name), b)
+                return
             if callee_of(r) in ('my_strlcpy', 'my_strlcat') and (ev.kind == 'DECL' or unwrap(ev.lhs).get('k') == 'var'):
                 name = ev.d['var'] if ev.kind == 'DECL' else unwrap(ev.lhs)['n']
                 op = '=' if ev.kind == 'DECL' else ev.d['op']
@@ -215,6 +229,7 @@ def run(ctx):
     r5(ctx)
     r6(ctx, e)
     r7(ctx, d)
+    r9(ctx, e)
 
 
 def _switch_block(f):
@@ -422,7 +437,8 @@ def r4(ctx, e, d):
                 continue
             # is there a read of v in the body reachable from the loop head without passing a plain assignment of v?
             def is_kill(ev, v=v):
-                return ev.kind == 'STORE' and estr(ev.lhs) == v and ev.d['op'] == '='
+                # a declaration starts a new object (the case blocks declare locals of the same name)
+                return (ev.kind == 'STORE' and estr(ev.lhs) == v and ev.d['op'] == '=') or (ev.kind == 'DECL' and ev.d['var'] == v)
 
             def is_use(ev, v=v):
                 if ev.kind == 'LOAD' and estr(ev.e) == v:
@@ -567,3 +583,57 @@ def r7(ctx, d):
               '%s[%s] >= %d (%% + %d flags + two * values + dot + length modifier + conversion + NUL)' % (fbuf, cap, need, len(flags)),
               '%s[%s] is smaller than the longest directive without repeated flags (%d): the decoder ends the message where such a directive starts, '
               'silently ("%%-*.*lld" with two large values)' % (fbuf, cap, need))
+
+
+def r9(ctx, e):
+    sw = _switch_block(e)
+    tg = _case_targets(e, sw)
+    if '.' not in tg or 's' not in tg or '*' not in tg:
+        raise AnalysisBroken('%s: cases for . * s not all present' % e.name)
+    loops = e.natural_loops()
+    barrier = {h for h in loops if sw.id in loops[h]} | {sw.id}
+    # the precision flag: the local the '.' case sets to a non-zero constant
+    visits, _t = abstract_run(e, {}, tracked=set(), start=tg['.'], barrier=barrier)
+    flags = {estr(ev.lhs) for (ev, _env) in visits if ev.kind == 'STORE' and unwrap(ev.lhs).get('k') == 'var' and cval(unwrap(ev.rhs)) not in (0, None)}
+    if len(flags) != 1:
+        raise AnalysisBroken('%s: the . case sets %s (expected one precision flag)' % (e.name, sorted(flags)))
+    flag = flags.pop()
+    # the string argument: the char * local the 's' case takes from the argument list
+    visits, _t = abstract_run(e, {}, tracked=set(), start=tg['s'], barrier=barrier)
+    UNBOUNDED = ('strlen', 'my_strlcpy', 'my_strlcat', 'strlcpy', 'strlcat', 'strcpy', 'strcat', 'strdup')
+    svars = {estr(ev.lhs) for (ev, _env) in visits if ev.kind == 'STORE' and unwrap(ev.lhs).get('k') == 'var' and
+             str(unwrap(ev.lhs).get('ty', '')).replace('const ', '') == 'char *' and ev.rhs is not None and unwrap(ev.rhs).get('k') in ('va_arg', 'vaarg', 'call', 'other', None)}
+    uses = []
+    seen = set()
+    for (ev, _env) in visits:
+        if ev.kind != 'CALL' and not (ev.kind in ('STORE', 'DECL')):
+            continue
+        nodes = []
+        if ev.kind == 'CALL':
+            nodes = [ev.d.get('e')]
+        else:
+            rhs = ev.rhs if ev.kind == 'STORE' else ev.d.get('init')
+            nodes = [n for n in walk(rhs)] if rhs is not None else []
+        for n in nodes:
+            n = unwrap(n) if n else {}
+            if n.get('k') == 'call' and callee_of(n) in UNBOUNDED and any(estr(unwrap(a)) in svars for a in n.get('args', [])):
+                key = (ev.d.get('id'), n.get('id'))
+                if key not in seen:
+                    seen.add(key)
+                    uses.append((ev, callee_of(n)))
+    if not svars:
+        raise AnalysisBroken('%s: the string argument of the s case was not found' % e.name)
+
+    def no_precision(a, fb):
+        return a.ls == flag and a.op == '==' and a.rc == 0
+    n = 0
+    for (ev, cn) in uses:
+        n += 1
+        ctx.check('R9', 'precision-bounds-the-read:%s' % cn, e.uncut_path(ev, no_precision) is None, ev, '%s measures the argument only when no precision was given' % cn,
+                  '%s measures the whole string argument although the directive has a precision: "%%.3s" on an array that is not terminated reads past '
+                  'its end while the message is logged (printf looks at three bytes)' % cn)
+    ctx.check('R9', 'star-precision-known', any(ev.kind == 'STORE' and estr(ev.lhs) != flag and unwrap(ev.lhs).get('k') == 'var' and flag in [a.ls for (a, _e) in e.guards(ev)]
+                                                 for (ev, _env) in abstract_run(e, {}, tracked=set(), start=tg['*'], barrier=barrier)[0]), e,
+              'a precision given through * is recorded for the string case', 'the * case does not record the value as the precision of a following s: "%.*s" is copied in full')
+    if n < 1:
+        raise AnalysisBroken('%s: no unbounded measurement of the string argument found (the no-precision path must have one)' % e.name)
